@@ -2,10 +2,11 @@
    the command parsers of pymap are transcribed (Cmd/Grammar.v).
 
    A Python parse method takes (buf, params) and returns (value, rest) or
-   raises.  Here a parser takes the continuations not yet consumed
-   (ParsingState.continuations, an iterator shared by every copy of Params
-   and never rewound when an alternative is abandoned) and the buffer, and
-   returns one of:
+   raises.  Here a parser takes the continuations that belong to the literals
+   from this position on (the buffer that ends with the k-th synchronizing
+   literal of the exchange is continued in the k-th continuation, whichever
+   alternative reaches it and however often) and the buffer, and returns one
+   of:
      POk v rest cs     value, remaining buffer, remaining continuations
      PFail k cs        NotParseable (k tells the subclass), continuations left
      PInt n            ParsingInterrupt(ExpectContinuation(literal_length=n))
@@ -61,15 +62,16 @@ Notation "p ;;; q" := (bind p (fun _ => q))
   (at level 61, right associativity).
 
 (* try: a = p  except NotParseable as k: h k  else: q a
-   — the handler resumes from the buffer the try block started with;
-   continuations consumed inside the block stay consumed; q is not
-   protected by the handler. *)
+   — the handler resumes from the buffer the try block started with, and
+   with the continuations that were pending there: a literal reached again
+   after backtracking is given the continuation it already received
+   (ParsingState.assigned, fix C06-F10); q is not protected by the handler. *)
 Definition try_else {A B} (p : parser A) (q : A -> parser B) (h : fkind -> parser B)
   : parser B :=
   fun cs b =>
     match p cs b with
     | POk a b' cs' => q a cs' b'
-    | PFail k cs' => h k cs' b
+    | PFail k _ => h k cs b
     | PInt n => PInt n
     | PExc x => PExc x
     | PFuel => PFuel
@@ -82,7 +84,7 @@ Definition try_ {A} (p : parser A) (h : fkind -> parser A) : parser A :=
 Definition restore {A} (p : parser A) : parser A :=
   fun cs b =>
     match p cs b with
-    | POk a _ cs' => POk a b cs'
+    | POk a _ _ => POk a b cs
     | r => r
     end.
 
